@@ -398,6 +398,32 @@ func c13Run(c *fw.Ctx, b fw.Batch) {
 				c.Distinct(fmt.Sprintf("dmg|%c|%d/%d|more=%v|crlf=%v|cols=%d", delim, dmg, rows, more, crlf, cols))
 			}
 		}
+	case "single-column":
+		// lines without any delimiter: one field per record, never a table
+		for i := 0; i < b.N; i++ {
+			n := 2 + r.Intn(8)
+			var ls []string
+			for k := 0; k < n; k++ {
+				ls = append(ls, []string{"alpha", "beta gamma", "42", "x.y", "héllo", "a;b", "k=v", "-"}[r.Intn(8)])
+			}
+			nl := "\n"
+			if r.Intn(3) == 0 {
+				nl = "\r\n"
+			}
+			d := []byte(strings.Join(ls, nl) + nl)
+			for _, L := range []uint32{0, uint32(len(d) + 1), uint32(len(d)), uint32(1 + r.Intn(len(d)))} {
+				ch, ok := c13Detect(c, "single-column", d, L, "one field per line")
+				if !ok {
+					continue
+				}
+				c.Count("converse_single_column_cases", 1)
+				if ch.HasLink("text/csv", ".csv") || ch.HasLink("text/tab-separated-values", ".tsv") {
+					c.Violate("single-column-reported-as-table", key13(d, L), fmt.Sprintf("lines with a single field each reported as %s; input %s limit %d", ch, fw.Quote(d, 100), L),
+						fw.InCase{Kind: "single-column", In: d, Limit: L, Entry: "Detect", Aux: "converse-single", InQ: fw.Quote(d, 100)})
+				}
+			}
+			c.Distinct(fmt.Sprintf("single|%d|%q", n, nl))
+		}
 	case "soups":
 		goodLines := []string{`{"a":1}`, `[1,2]`, `{}`, `[]`, `1`, `"s"`, `true`, `null`, ` {"b":[1]} `, `-1.5e3`, `{"a":{"b":[]}}`, ``, `  `, "\t"}
 		badLines := []string{`{"a":`, `[1,`, `"abc`, `tru`, `{]`, `{"a":1}}`, `[1]]`, `{"a" 1}`, `{"a":1} x`, `[1 2]`, `{`, `[`, `{"a":[}`, `nul`, `1 2`, `"a" "b"`, `{"a":1},`, `\`, `'a'`, `[1,]x`}
@@ -440,7 +466,7 @@ func init() {
 	fw.Register(&fw.Prop{
 		ID:    "C13",
 		Level: "exploration",
-		Rule: "forward: rectangular CSV/TSV tables (2-6 columns, 2-7 rows, LF/CRLF, optional properly quoted cells containing the delimiter, with/without final newline, occasionally the other delimiter inside cells) and NDJSON streams (one generated JSON value per line, an object/array within the first two lines) detected at EVERY limit from just past the second line's newline to len, and whole; tables with interspersed '#' comment lines (the dialect the converse clause names: comment lines are not records) are expected to be detected from the second record line on. converse: tables of simple cells with exactly one complete line damaged (one field more/less) at every line index x every limit that keeps the damaged line complete; NDJSON streams and line soups (valid values, blank lines, 20 malformed line kinds) at every limit, judged by the reference recogniser per line. " +
+		Rule: "forward: rectangular CSV/TSV tables (2-6 columns, 2-7 rows, LF/CRLF, optional properly quoted cells containing the delimiter, with/without final newline, occasionally the other delimiter inside cells) and NDJSON streams (one generated JSON value per line, an object/array within the first two lines) detected at EVERY limit from just past the second line's newline to len, and whole; tables with interspersed '#' comment lines (the dialect the converse clause names: comment lines are not records) are expected to be detected from the second record line on. converse: single-column files (one field per line) must not be tables; tables of simple cells with exactly one complete line damaged (one field more/less) at every line index x every limit that keeps the damaged line complete; NDJSON streams and line soups (valid values, blank lines, 20 malformed line kinds) at every limit, judged by the reference recogniser per line. " +
 			"non-trivial = a truncated detection with the cut strictly inside the file (forward), or an input containing a damaged/malformed line (converse); distinct = distinct (family, CRLF, quoting, final newline, position of the cut relative to line structure, delimiter) / (damaged line index, row count, more/less, columns) / (soup shape) tuples.",
 		Assumptions: []string{
 			"'complete line' means newline-terminated inside the examined header when the header was cut by the limit",
@@ -458,6 +484,7 @@ func init() {
 			bs = append(bs, batches("ndjson", 5, nn, 1800)...)
 			bs = append(bs, batches("damaged-tables", 2, nd, 1800)...)
 			bs = append(bs, batches("soups", 3, ns, 1800)...)
+			bs = append(bs, batches("single-column", 1, nd*4, 1800)...)
 			return bs
 		},
 		Run: c13Run,
@@ -481,6 +508,11 @@ func init() {
 				}
 			case "converse-ndjson":
 				c13ConverseNdjson(c, ic.Kind, ic.In, []uint32{ic.Limit})
+			case "converse-single":
+				ch, ok := c13Detect(c, ic.Kind, ic.In, ic.Limit, "")
+				if ok && (ch.HasLink("text/csv", ".csv") || ch.HasLink("text/tab-separated-values", ".tsv")) {
+					c.Violate("single-column-reported-as-table", key13(ic.In, ic.Limit), "single-column lines reported as "+ch.String(), ic)
+				}
 			case "converse-table":
 				nm := c13Names[p[1][0]]
 				ch, ok := c13Detect(c, ic.Kind, ic.In, ic.Limit, "")
